@@ -187,8 +187,12 @@ func genTargets(r *hx.Rand) int {
 		return r.Range(2, 5)
 	case k < 17:
 		return r.Range(6, 20)
-	default:
+	case k < 19 || !r.Chance(1, 3):
 		return r.Range(21, 60)
+	default:
+		// many targets: most slot counts are 0 or bumped to 1, the ring grows well beyond 10⁴ slots, and the ring
+		// is shipped as an index array instead of one character per slot
+		return r.Range(80, 220)
 	}
 }
 
